@@ -188,23 +188,34 @@ def replay_known(ctx, binp):
                           open(os.path.join(ROOT, "corpus", "C08", "known", "orphan_resurrect.sched")).read())
     topic_delete_replays(ctx, binp, res)
     sync_every_replays(ctx, binp, res)
-    rc, kv, out = run_sched(ctx, binp, "empty_races_req_survives", timeout=90)
-    res["empty_races_req_survives"] = kv or {"error": out[-300:]}
-    sched = open(os.path.join(ROOT, "corpus", "C08", "known", "empty_races_req_survives.sched")).read()
-    if not kv:
-        if rc == -9 or "test timed out" in out:
-            ctx.violation("daemon-hangs:empty_races_req_survives", "Empty racing a parked REQ did not finish", sched)
-        else:
-            ctx.broken_ties.append("replay empty_races_req_survives did not run (rc=%s)" % rc)
-    else:
+    # Empty racing an operation that holds a message outside every container (audit B17).  REQ / TOUCH: repaired by
+    # fixes/F27 (the answers hold c.RLock: Empty waits); the timeout scan's window is NOT covered by F27 (open finding).
+    ans_lock = tree_ans_lock()
+    for name, key, guarded in (("empty_races_req_survives", "empty-races-req-message-survives", True),
+                               ("empty_races_touch_survives", "empty-races-touch-message-survives", True),
+                               ("empty_races_scan_survives", "empty-races-timeout-scan-message-survives", False)):
+        rc, kv, out = run_sched(ctx, binp, name, timeout=90)
+        res[name] = kv or {"error": out[-300:]}
+        sched = open(os.path.join(ROOT, "corpus", "C08", "known", name + ".sched")).read()
+        if not kv:
+            if rc == -9 or "test timed out" in out:
+                ctx.violation("daemon-hangs:" + name, "Empty racing a parked operation did not finish", sched)
+            else:
+                ctx.broken_ties.append("replay %s did not run (rc=%s)" % (name, rc))
+            continue
         ctx.evaluations += 1
-        ctx.count_case("sched:empty_races_req_survives", nontrivial=True)
+        ctx.count_case("sched:" + name, nontrivial=True)
         obs = " ".join("%s=%s" % x for x in sorted(kv.items()))
+        waited = kv.get("empty_waited_for_req") == "true"
         if kv.get("empty") != "ok":
-            ctx.violation("daemon-hangs:empty_races_req_survives", obs, sched + "# observed: " + obs + "\n")
+            ctx.violation("daemon-hangs:" + name, obs, sched + "# observed: " + obs + "\n")
         elif kv.get("survived") == "true":
-            k = "empty-races-req-message-survives" + (":despite-lock" if kv.get("empty_waited_for_req") == "true" else "")
-            ctx.violation(k, "empty_races_req_survives: " + obs, sched + "# observed: " + obs + "\n")
+            # a tree whose facts say "the answers hold the channel lock" (or on which Empty did wait) must not let
+            # the message survive: a different key, so that the open finding of the unprotected tree does not swallow it
+            k = key + (":despite-lock" if (waited or (guarded and ans_lock)) else "")
+            ctx.violation(k, "%s: %s" % (name, obs), sched + "# observed: " + obs + "\n")
+        elif guarded and ans_lock and not waited:
+            ctx.broken_ties.append("replay %s: the facts say REQ/TOUCH hold c.RLock but Empty did not wait (%s)" % (name, obs))
     ctx.corr["hook_replays"] = res
 
 
